@@ -4,7 +4,7 @@ from ..engine.core import AnalysisError, need
 from ..engine.astutil import unparse, dotted, pmatch, const_int, dump, template_of, dispatch_leaves, select_leaf
 from ..engine.cfg import CFG
 from ..engine.symx import run_paths
-from . import c02, c04, c05, c08, pyrtl_common
+from . import c02, c03, c04, c05, c08, pyrtl_common
 from .interp import PYRTL, PYEVAL, IR, RTLIL, XFRM, handled
 
 PYSIM = "amaranth/sim/pysim.py"
@@ -210,4 +210,7 @@ RULES = [("R-11a", r11a), ("R-11b", r11b), ("R-11c", r11c), ("R-11d", r11d),
          ("R-02g", _only(c02.r02g, lambda c: c.startswith("_PyMemoryState"))),
          ("R-05d", _only(c05.r05d, lambda c: "_Row" in c)),
          ("R-04d", _only(c04.r04d, lambda c: any(k in c for k in ("write-enable", "write_port", "read_port", "TRANSPARENCY", "write-port-ids", "write_ports")))),
-         ("R-08a", _only(c08.r08a, lambda c: c.startswith("_PyMemoryState")))]
+         ("R-08a", _only(c08.r08a, lambda c: c.startswith("_PyMemoryState"))),
+         # a disabled synchronous read port holds its output, also while the domain is in reset
+         ("R-03b", _only(c03.r03b, lambda c: c == "_FragmentCompiler:reset-block:registers-only")),
+         ("R-03a", _only(c03.r03a, lambda c: c.endswith(":registers-only")))]
